@@ -628,6 +628,12 @@ func ruleCC4(pkgs ...string) Rule {
 										}
 									}
 								}
+								// the same test written with a predicate helper: if !l.cancelled() { close(l.cancel) }
+								for _, gd := range guardsOf(c.P, n, nil) {
+									if is, neg := c.callsCancelPredicate(info, gd.cond, cancel); is && ((neg && gd.pos) || (!neg && !gd.pos)) {
+										okSel = true
+									}
+								}
 								if okSel && held[n] {
 									rr.OK(f, key, n.Pos(), "once", "closed at most once: tested with select/default under the mutex")
 								} else {
